@@ -1462,18 +1462,27 @@ void *factory_make(void *fh, bool enc, int type)
   h->m = m;
   return h;
 }
+// in a template, so that the copy expression is discarded (not compiled) when the class is not copyable
+template <class F>
+static F *copy_if_copyable(F *src)
+{
+  if constexpr (std::is_copy_constructible<F>::value)
+    return new F(*src);
+  else
+    return nullptr;
+}
 void *factory_copy(void *fh, const uint8_t iv_for_copy[16], const uint8_t iv_for_source_afterwards[16])
 {
-  if constexpr (!std::is_copy_constructible<AesFactory>::value)
-    return NULL;
-  else
   {
     FacH *src = (FacH *)fh;
+    AesFactory *cp = copy_if_copyable<AesFactory>(src->f);
+    if (!cp)
+      return NULL;
     FacH *h = new FacH;
     memcpy(h->key, src->key, 16);
     memset(h->iv, 0, sizeof h->iv);
     memcpy(h->iv, iv_for_copy, 16);
-    h->f = new AesFactory(*src->f); // shares the source's key buffer (the class holds a pointer): the copy is freed before the source
+    h->f = cp; // shares the source's key buffer (the class holds a pointer): the copy is freed before the source
     h->f->loadiv(h->iv);
     memcpy(src->iv, iv_for_source_afterwards, 16); // the source moves on to another IV (same buffer, new content) ...
     src->f->loadiv(src->iv);                       // ... and says so
